@@ -33,6 +33,7 @@ POOL_LOCAL = [
     # other ways to fail (no Python traceback is recorded for these): unknown command, failing link argument, conversion
     ("bad3.txt", "lit-a/nosuchcmd/bad3.txt", None),
     # a value its declared extension cannot hold: the recipe fails (no bytes in another format under that name)
+    ("d.v1.json", {"query": "mk-dict-2/d.v1.json", "title": "Two dots"}, None),
     ("num.txt", "one/add-2/num.txt", None),
     ("dict.txt", {"query": "mk-dict-2/dict.txt", "title": "A dictionary as txt"}, None),
     # a recipe without any command: a copy of another entry under a new name
